@@ -485,8 +485,9 @@ class Balancer:
             new_right = claripy.Concat(truism.args[1], claripy.BVV(0, len(left_lsb)))
             return Bool(truism.op, (new_left, new_right))
 
-        if low == 0 and truism.args[1].op == "BVV" and truism.op not in {"SGE", "SLE", "SGT", "SLT"}:
-            # single-valued rhs value with an unsigned operator
+        if low == 0 and truism.args[1].op == "BVV" and truism.op in {"UGE", "UGT"}:
+            # single-valued rhs value with an unsigned lower-bounding operator: inner >= inner[high:0], so the bound carries over.
+            # (It does not for ==, !=, < and <=: the bits above `high` are unknown.)
             # Eliminate Extract on lhs and zero-extend the value on rhs
             new_left = inner
             new_right = claripy.ZeroExt(inner.size() - truism.args[1].size(), truism.args[1])
